@@ -378,9 +378,10 @@ func init() {
 		Rule: "transactions staging 1..3 branches (every new/existing combination; commit order = every permutation of the branch iteration, owned through a build-time overlay of the map range) x every sequence of up to 2 (thorough 3) operations from {commit, discard} x {clean, injected error at store write #k, simulated process death before write #k} for every k up to the number of writes, " +
 			"followed by a clean re-run of commit when the transaction is still open. The real transaction.Commit / Discard run on the real SQL ref store (in-memory SQLite) and an in-memory object store behind fault wrappers that number every mutating call of both stores in one sequence. " +
 			"Oracle after every step: no branch ever carries more than one commit of the transaction; a committed transaction has moved every branch; a clean commit moves every branch to a commit with the staged table, marks the transaction and logs it with true old/new values; an injected error is reported; " +
-			"a committed transaction refuses commit and discard without touching anything; discard removes the staged refs and never touches a branch, and an interrupted discard is completed by a clean re-run of discard; the re-run of commit reaches exactly the all-branches outcome. evaluations = fault scenarios; non-trivial = at least one operation; distinct by scenario",
+			"a committed transaction refuses commit and discard without touching anything; discard removes the staged refs and never touches a branch, and an interrupted discard is completed by a clean re-run of discard; the re-run of commit reaches exactly the all-branches outcome. cli tier: `wrgl transaction commit` and `wrgl transaction discard` on an on-disk repository (one existing and one new branch staged) run as a subprocess killed before every mutating store method and before every SQL statement inside the ref store, reopened, checked and re-run: the re-run must succeed and end exactly where an uninterrupted run ends. evaluations = fault scenarios; non-trivial = at least one operation; distinct by scenario",
 		Assumptions: []string{"each store call is atomic (one SQL statement / transaction, one key write); a crash is a process death between two store calls", "staged data are commit objects with fixed table sums (Commit does not read tables)"},
 		Harnesses: []*mc.Harness{
+			{Name: "cli-killed-transaction", Body: c14CLI, Budget: map[string]time.Duration{"quick": 45 * time.Second, "thorough": 3 * time.Minute}},
 			{Name: "fault-sequences", Body: c14Body, DevBound: map[string]int{"quick": 1, "thorough": 1}, Budget: map[string]time.Duration{"quick": 75 * time.Second, "thorough": 14 * time.Minute}},
 		},
 	})
